@@ -20,7 +20,10 @@ Ties, every run:
          — bytes compared with the CLI's output file (or both fail and no file exists);
       d. S (Spec/CliSpec.v spec_case, spec_plan, no output event on an error path) evaluated inside Coq on what the code did;
  3. random decoder probes and random paths for splitext/get_file_type, M = code and S on the code's answer
-    (acceptance and decoded meaning);
+    (acceptance and decoded meaning); every key of every module — every string-valued one in particular — is also fed a
+    fixed list of values that are not strings (booleans, integers, floats, lists, objects, null), and every rejection is
+    judged by its exception class: anything but the decoders' ValueError must be covered by the trigger of recorded
+    finding rejection-not-a-value-error (Spec/CliSpec.v trigger_escape), else it is a violation;
  4. determinism (differential execution, not proof): same command under other PYTHONHASHSEEDs, with progress
     bar / log level toggled, and inside one interpreter after k other conversions in random order — byte-identical.
 """
@@ -30,6 +33,10 @@ import common as C
 import gen_tables, gen_c19 as G
 
 FINDINGS = {2: "undocumented-values-accepted", 4: "documented-values-rejected"}
+ESCAPE_FINDING = "rejection-not-a-value-error"
+# values that are not strings, fed to EVERY configuration key of every module on every run (see nonstring_probes)
+NONSTRINGS = [None, True, False, 0, 1, -7, 23, 2 ** 70, 0.0, 2.5, -1.5, 1e300, float("nan"), float("inf"), [], ["left"], [1, "a"], [[]],
+              {}, {"a": 1}, {"value": "left"}, [None], [True]]
 CLI = "import sys; from ttconv.tt import main; sys.exit(main())"
 EXT = {"ttml": "ttml", "scc": "scc", "stl": "stl", "srt": "srt", "vtt": "vtt"}
 
@@ -142,6 +149,9 @@ NEAR = {
     "KSccTextAlign": ["LEFT", "Auto", "start", ""], "KTimeFormat": ["Frames", "clock", ""], "KLogLevel": ["DEBUG", "info", 20, "WARNING"],
     "KDocumentLang": ["not a tag", "", "en_US"], "KFontStack": ["", ",", "'", "a,,b", " "],
 }
+# values that are not strings reach the string-valued keys on command lines as well (the whole run, not only the decoder)
+for _k in ("KFps", "KColor", "KBgColor", "KStartTc", "KSccTextAlign", "KTimeFormat", "KLogLevel", "KDocumentLang", "KFontStack", "KMaxRowCount"):
+    NEAR[_k] = NEAR[_k] + [True, 5, 2.5, ["left"], {"a": 1}] + ([None] if _k == "KSccTextAlign" else [])
 for _k in ("KProgressBar", "KFillLineGap", "KLinePadding", "KTextFormatting", "KLinePosition", "KVttTextAlign", "KCueId", "KPreserveTextAlign"):
     NEAR[_k] = ["true", "false", 0, 1, None, "no", [], 1.0]
 
@@ -829,6 +839,28 @@ def gen_probes(rng, n):
     return out
 
 
+def cfg_dicts(c):
+    """the configuration objects a generated command line carries (inline, file), where they are JSON objects"""
+    out = []
+    for t in (c["inline"], c["file"][1] if c["file"] is not None and c["file"][0] == "text" else None):
+        if t is None: continue
+        try: j = json.loads(t)
+        except ValueError: continue
+        if isinstance(j, dict): out.append(j)
+    return out
+
+
+def string_valued(sec, field):
+    """README documents a string (possibly among other things) for this key"""
+    return any(isinstance(x, str) for x in VALID[(sec, field)])
+
+
+def nonstring_probes():
+    """every key of every module x every value of NONSTRINGS (fixed, not sampled)"""
+    if set(VALID) != set(G.KEYS): raise G.GenError("VALID and the key table of gen_c19.py differ")
+    return [(sec, field, K, v) for (sec, field), K in G.KEYS.items() for v in NONSTRINGS]
+
+
 def gen_paths(rng, n):
     out = []
     exts = ["ttml", "scc", "srt", "stl", "vtt", "TTML", "Srt", "vTT", "txt", "xml", "", "ttm", "ttmll", "s\u0441c", "\u017fcc", "srt ", "STL"]
@@ -866,7 +898,7 @@ def main():
     if changed: run.log("tables regenerated from source:", changed)
     targets = ["Proofs/C19/Tables.vo", "Proofs/C19/Plan.vo", "Proofs/C19/Types.vo", "Proofs/C19/Accept.vo", "Proofs/C19/AcceptFont.vo",
                "Proofs/C19/AcceptColor.vo", "Proofs/C19/AcceptAll.vo", "Proofs/C19/Args.vo", "Proofs/C19/Pipeline.vo", "Proofs/C19/SpecPlan.vo",
-               "Proofs/C19/Order.vo", "Proofs/C19/Main.vo", "Model/CliCases.vo"]
+               "Proofs/C19/Order.vo", "Proofs/C19/Main.vo", "Proofs/C19/Reject.vo", "Model/CliCases.vo"]
     ok, log = run.build(targets, clean=(run.tier == "thorough"))
     if not ok and errors: C.make(["Model/CliCases.vo"], 1500)
     proofs_ok = ok and run.theorems()
@@ -996,10 +1028,11 @@ def body(run, proofs_ok, root, n_cases, n_probes, n_paths, quick):
     logging.disable(logging.CRITICAL)
     import ttconv.tt as tt
     probes = gen_probes(rng, n_probes); prow = []
+    systematic = nonstring_probes(); probes += systematic
     # always present: documented values beyond CPython's int() digit limit (what is left of finding documented-values-rejected)
     probes += [("imsc_writer", "fps", "KFps", "0" * 4299 + "25/1"), ("lcd", "color", "KColor", "rgb(" + "0" * 4300 + "1,2,3)"),
                ("imsc_writer", "fps", "KFps", "0" * 4290 + "25/1")]
-    kept = []
+    kept = []; answers = []
     for sec, field, K, v in probes:
         try:
             kind, r = G.decode_key(sec, field, v)
@@ -1007,7 +1040,7 @@ def body(run, proofs_ok, root, n_cases, n_probes, n_paths, quick):
             # the code accepted v and produced a value of a shape no documented value has (e.g. an int for a true | false key)
             py_viol.append((None, f"configuration key {sec}.{field}: the code accepts {v!r} and decodes it to a value outside the documented kinds ({e})"))
             continue
-        kept.append((sec, field, K, v))
+        kept.append((sec, field, K, v)); answers.append("accepted" if kind == "ok" else r)
         prow.append(f"({K}, {G.jlit(v)}, {'POk ' + r if kind == 'ok' else 'PRaise ' + r})")
     probes = kept
     paths = gen_paths(rng, n_paths); trow = []
@@ -1022,7 +1055,8 @@ def body(run, proofs_ok, root, n_cases, n_probes, n_paths, quick):
     for k in range(0, len(prow), per):
         p = f"{C.GEN}/Cases_C19_probe_{k // per}.v"
         open(p, "w").write(hdr + "Definition ps : list (key * json * probe_res) := [\n" + ";\n".join(prow[k:k + per]) + "].\n"
-                           "Eval vm_compute in check_all (probes_model ps).\nEval vm_compute in (7777, probes_spec ps).\n")
+                           "Eval vm_compute in check_all (probes_model ps).\nEval vm_compute in (7777, probes_spec ps).\n"
+                           "Eval vm_compute in (8888, probes_escape ps).\n")
         files.append(("probe", p, list(range(k, min(k + per, len(prow))))))
     per = 1500
     for k in range(0, len(trow), per):
@@ -1033,6 +1067,7 @@ def body(run, proofs_ok, root, n_cases, n_probes, n_paths, quick):
     res = C.coqc_many([p for _, p, _ in files], 1500)
     m_bad = {"cli": [], "probe": [], "type": [], "inj": []}; s_bad = {"cli": [], "probe": [], "type": [], "inj": []}; excused = {"cli": {}, "probe": {}}
     unmeant = {"cli": [], "probe": []}
+    escaped = []; escape_excused = []        # probes rejected by another exception class than ValueError: uncovered / covered by trigger_escape
     broken = []
     for kind, p, idxs in files:
         rcq, out = res[p]; flat = " ".join(out.split())
@@ -1053,10 +1088,20 @@ def body(run, proofs_ok, root, n_cases, n_probes, n_paths, quick):
                 if cde == 9: s_bad[kind].append(i)
                 elif cde == 8: unmeant[kind].append(i)
                 elif cde != 0: excused[kind][i] = cde
+            if kind == "probe":
+                m = re.search(r"=\s*\(\s*8888\s*,\s*(\[[^\]]*\]|nil)\s*\)", flat)
+                if not m: broken.append((p, "escape list")); continue
+                codes = [int(x) for x in re.findall(r"\d+", m.group(1))]
+                if len(codes) != len(idxs): broken.append((p, "escape count")); continue
+                for i, cde in zip(idxs, codes):
+                    if cde == 7: escaped.append(i)
+                    elif cde == 5: escape_excused.append(i)
+                    elif cde != 0: broken.append((p, f"escape code {cde}"))
     C.clean_cases("Cases_C19_")
     run.log(f"Coq: command lines M/code mismatches {len(m_bad['cli'])}, S failures {len(s_bad['cli'])}, not the prescribed plan {len(unmeant['cli'])}, excused by findings {len(excused['cli'])}; "
             f"runs with a failing stage: mismatches {len(m_bad['inj'])}, S failures {len(s_bad['inj'])}; "
-            f"probes mismatches {len(m_bad['probe'])}, S failures {len(s_bad['probe'])}, not the documented meaning {len(unmeant['probe'])}, excused {len(excused['probe'])}; "
+            f"probes mismatches {len(m_bad['probe'])}, S failures {len(s_bad['probe'])}, not the documented meaning {len(unmeant['probe'])}, excused {len(excused['probe'])}, "
+            f"rejected by another class than ValueError {len(escaped)} uncovered + {len(escape_excused)} covered by {ESCAPE_FINDING}; "
             f"paths mismatches {len(m_bad['type'])}, S failures {len(s_bad['type'])}; broken files {len(broken)}")
 
     # ---- determinism: other hash seeds, progress/log toggles, histories within one interpreter
@@ -1168,6 +1213,11 @@ def body(run, proofs_ok, root, n_cases, n_probes, n_paths, quick):
         sec, field, K, v = probes[i]
         run.violation(f"configuration key {sec}.{field}: the code's answer on {v!r} contradicts the documented table and no recorded finding covers it",
                       dict(kind="S-on-code", section=sec, key=field, value=repr(v), code=G.decode_key(sec, field, v)))
+    for i in escaped[:5]:
+        s_found = True
+        sec, field, K, v = probes[i]
+        run.violation(f"configuration key {sec}.{field}: the value {v!r} is not rejected by the decoder's ValueError but escapes as {answers[i]} "
+                      f"and no recorded finding covers it", dict(kind="S-on-code", section=sec, key=field, value=repr(v), code=G.decode_key(sec, field, v)))
     for i in s_bad["type"][:5]:
         s_found = True
         run.violation(f"type inference on (type={paths[i][0]!r}, path={paths[i][1]!r}) contradicts the specification", dict(kind="S-on-code", given=paths[i][0], path=paths[i][1]))
@@ -1201,6 +1251,15 @@ def body(run, proofs_ok, root, n_cases, n_probes, n_paths, quick):
                 run.violation(f"finding {fid} fires but is not listed", dict(kind="unlisted-finding", id=fid, example=ex))
         else:
             stale.append(fid + ": no generated input triggers it any more")
+    if escape_excused:
+        by_key = {}
+        for i in escape_excused: by_key.setdefault(f"{probes[i][0]}.{probes[i][1]}", []).append(i)
+        ex = "; ".join(f"{k} = {probes[v[0]][3]!r} -> {answers[v[0]]}" for k, v in sorted(by_key.items()))
+        if not run.known(ESCAPE_FINDING, f"{len(escape_excused)} probes, {ex}"[:300]):
+            s_found = True
+            run.violation(f"finding {ESCAPE_FINDING} fires but is not listed", dict(kind="unlisted-finding", id=ESCAPE_FINDING, example=ex))
+    else:
+        stale.append(ESCAPE_FINDING + ": no generated input triggers it any more")
     rcf, outf = C.coqc(C.COQ + "/Findings/C19.v", 600)
     if rcf != 0: stale.append("Findings/C19.v no longer compiles")
     if stale: run.cov["stale_findings"] = stale
@@ -1272,7 +1331,17 @@ def body(run, proofs_ok, root, n_cases, n_probes, n_paths, quick):
         both_with_file_only_section=sum(1 for c in cases if c.get("file_only")), both_with_shared_section=sum(1 for c in cases if c.get("shared")),
         with_filters=sum(1 for c in cases if c["filters"]), probes=len(probes), probe_excused=len(excused["probe"]), paths=len(paths),
         determinism_reruns=len(djobs), history_conversions=hist_n, history_interpreters=n_hist,
-        findings_fired={k: len(v) for k, v in fired.items()},
+        findings_fired=dict({k: len(v) for k, v in fired.items()}, **({ESCAPE_FINDING: len(escape_excused)} if escape_excused else {})),
+        nonstring_values=[repr(v) for v in NONSTRINGS],
+        nonstring_probe_outcomes={f"{sec}.{field}" + (" (string-valued)" if string_valued(sec, field) else ""):
+                                  {a: sum(1 for p_, a_ in zip(probes, answers) if p_[:2] == (sec, field) and not isinstance(p_[3], str) and a_ == a)
+                                   for a in sorted({a_ for p_, a_ in zip(probes, answers) if p_[:2] == (sec, field) and not isinstance(p_[3], str)})}
+                                  for (sec, field) in G.KEYS},
+        systematic_nonstring_probes=len(systematic),
+        command_lines_with_nonstring_for_string_key=sum(1 for c in cases for cfgd in cfg_dicts(c)
+                                                        for sec, d in cfgd.items() if isinstance(d, dict)
+                                                        for k, v in d.items() if (sec, k) in VALID and string_valued(sec, k) and not isinstance(v, str) and v is not None
+                                                        and not (k == "max_row_count" and isinstance(v, int) and not isinstance(v, bool))),
         samples=[dict(argv=cases[i]["argv"], observed=obs[i], rc=cases[i]["rc"], cmp=cases[i]["cmp"]) for i in range(min(3, len(cases)))] +
                 [dict(argv=cases[i]["argv"], observed=obs[i], rc=cases[i]["rc"], cmp=cases[i]["cmp"]) for i in list(excused["cli"])[:2]])
     run.assumptions += [
